@@ -106,6 +106,52 @@ def burst(h, rng):
                 h.emit([2, rng.choice(mem), []])
 
 
+def edit_move_edit(h, rng):
+    """edits only: a member of a well-populated owner (>= 5 members) is edited, moved to another owner and edited there, back to
+    back -- three index events of the old owner in one pending batch, about a node that has meanwhile left and changed.  Returns
+    lookups aimed at the old and the new owner."""
+    from world import K
+    qs = []
+    if rng.random() < 0.6 and len(h.by_kind["ByteInterval"]) >= 2:
+        a, b = rng.sample(h.by_kind["ByteInterval"], 2)
+        blocks = h.by_kind["CodeBlock"] + h.by_kind["DataBlock"]
+        mem = [x for x in h.w.kids(a)]
+        for x in blocks:
+            if len(mem) >= 5:
+                break
+            if x not in mem:
+                h.emit([2, x, [a]])
+                mem.append(x)
+        if len(mem) < 2:
+            return qs
+        x = rng.choice(mem)
+        h.emit([15, x, rng.choice([1, 2, 6])])
+        h.emit([2, x, [b]] if rng.random() < 0.5 else [3, b, [K["CodeBlock"], K["DataBlock"]], 0, [[x]]])
+        h.emit([16, x, rng.choice([0, 2, 5, 9])])
+        for o in (0, 2, 5, 9):
+            qs += [[40, a, 3, 0, o, o + 1, 1], [40, a, 2, 0, o, o + 3, 1], [40, b, 3, 0, o, o + 1, 1]]
+    elif len(h.by_kind["Section"]) >= 2:
+        a, b = rng.sample(h.by_kind["Section"], 2)
+        bis = h.by_kind["ByteInterval"]
+        mem = [x for x in h.w.kids(a)]
+        for x in bis:
+            if len(mem) >= 4:
+                break
+            if x not in mem:
+                h.emit([2, x, [a]])
+                mem.append(x)
+        if len(mem) < 2:
+            return qs
+        x = rng.choice(mem)
+        h.emit([14, x, [rng.choice([0, 16, 64])]])
+        h.emit([15, x, rng.choice([4, 32])])
+        h.emit([2, x, [b]] if rng.random() < 0.5 else [3, b, [K["ByteInterval"]], 0, [[x]]])
+        h.emit([14, x, [rng.choice([100, 256])]])
+        for ad in (0, 16, 64, 100, 256):
+            qs += [[40, a, 4, 0, ad, ad + 8, 1], [40, a, 10, 0, 0, 1, 1], [40, b, 4, 0, ad, ad + 8, 1], [40, b, 10, 0, 0, 1, 1]]
+    return qs
+
+
 def grow_edit(h, rng):
     """edits only (for C12's base histories): an addressed interval grows through initialized_size with a block placed in the part
     that becomes declared; returns lookups aimed at that part, to be asked at the end of every schedule"""
